@@ -669,3 +669,117 @@ def controller_walk(seed: int, length: int, app_ids=(0, 1), um_sizes=(1, 2)):
         if ev["err"]:
             break
     return evs
+
+
+# --------------------------------------------------------------------------
+# SDK rig: real connection -> real message bytes -> VController -> VExecutor
+# --------------------------------------------------------------------------
+from netqasm.sdk.connection import BaseNetQASMConnection, DebugConnection, DebugNetworkInfo  # noqa: E402
+
+
+class ControllerFault(Exception):
+    pass
+
+
+class Stuck(Exception):
+    pass
+
+
+class AutoLink:
+    """Answers every outstanding request of the recording stack with scripted
+    responses whenever the executor waits.  bell / outcome / basis scripts are
+    consumed in pair order."""
+
+    def __init__(self, ex: "VExecutor", stack: RecordingStack, bell=None, outcomes=None, remote_streams=None, fields=None):
+        self.ex, self.stack = ex, stack
+        self.bell = list(bell or [])
+        self.outcomes = list(outcomes or [])
+        self.served = 0                     # requests of the stack already answered
+        self.seq = 0
+        self.remote = list(remote_streams or [])     # [{remote, purpose, type, n}] initiated by the other side
+        self.fields = fields                # optional callable(pair_index, kind) -> dict of extra response fields
+        self.log: List[Any] = []
+
+    def _resp(self, kind, dirflag, remote, purpose):
+        i = self.seq
+        self.seq += 1
+        bell = BellState(self.bell[i] if i < len(self.bell) else 0)
+        extra = self.fields(i, kind) if self.fields else {}
+        if kind == "K":
+            phys = self.ex._get_unused_physical_qubit()
+            r = LinkLayerOKTypeK(type=ReturnType.OK_K, create_id=extra.get("create_id", 0), logical_qubit_id=phys,
+                                 directionality_flag=dirflag, sequence_number=extra.get("sequence_number", i), purpose_id=purpose,
+                                 remote_node_id=remote, goodness=extra.get("goodness", 0), goodness_time=extra.get("goodness_time", 0),
+                                 bell_state=bell)
+        else:
+            out = self.outcomes[i] if i < len(self.outcomes) else 0
+            r = LinkLayerOKTypeM(type=ReturnType.OK_M, create_id=extra.get("create_id", 0), measurement_outcome=out,
+                                 measurement_basis=extra.get("measurement_basis", 0), directionality_flag=dirflag,
+                                 sequence_number=extra.get("sequence_number", i), purpose_id=purpose, remote_node_id=remote,
+                                 goodness=extra.get("goodness", 0), bell_state=bell)
+        self.log.append(r)
+        return r
+
+    def on_wait(self) -> bool:
+        progressed = False
+        while self.served < len(self.stack.requests):
+            rq = self.stack.requests[self.served]
+            self.served += 1
+            kind = "K" if rq.type == RequestType.K else "M"
+            for _ in range(rq.number):
+                self.ex._handle_epr_response(self._resp(kind, 0, rq.remote_node_id, rq.purpose_id))
+                progressed = True
+        for st in self.remote:
+            while st["n"] > 0:
+                st["n"] -= 1
+                self.ex._handle_epr_response(self._resp(st["type"], 1, st["remote"], st["purpose"]))
+                progressed = True
+        if self.ex._pending_epr_responses:
+            before = len(self.ex._pending_epr_responses)
+            self.ex._handle_pending_epr_responses()
+            progressed = progressed or len(self.ex._pending_epr_responses) != before
+        return progressed
+
+
+class VConnection(BaseNetQASMConnection):
+    """The real SDK connection; every message goes as BYTES through the real
+    deserialiser into the real controller and executor."""
+
+    def __init__(self, app_name="alice", ctrl: Optional[VController] = None, nv=False, **kwargs):
+        SharedMemoryManager.reset_memories()
+        BaseNetQASMConnection._app_ids.clear()
+        BaseNetQASMConnection._app_names.clear()
+        DebugConnection.node_ids = {"verif": 0, "bob": 1, "charlie": 2, "alice": 0}
+        self.ctrl = ctrl or VController(name="verif", flavour=NVFlavour() if nv else VanillaFlavour())
+        self.ex: VExecutor = self.ctrl._executor  # type: ignore
+        self.stack = RecordingStack()
+        self.ctrl.network_stack = self.stack
+        self.link: Optional[AutoLink] = None
+        self.sent: List[bytes] = []
+        self.subroutines: List[Any] = []
+        self._msg_id = 0
+        self.ex.step_mode = False
+        super().__init__(app_name=app_name, node_name="verif", **kwargs)
+
+    def _get_network_info(self):
+        return DebugNetworkInfo
+
+    def _commit_serialized_message(self, raw_msg, block=True, callback=None):
+        self.sent.append(raw_msg)
+        msg = _M.deserialize_host_msg(raw_msg)
+        self._msg_id += 1
+        gen = self.ctrl.handle_netqasm_message(msg_id=self._msg_id, msg=msg)
+        idle = 0
+        try:
+            for y in gen:
+                if y == WAIT:
+                    ok = self.link.on_wait() if self.link else False
+                    idle = 0 if ok else idle + 1
+                    if idle > 3:
+                        raise Stuck("the subroutine waits and the link has nothing more to deliver")
+        except (Stuck, ScriptExhausted):
+            raise
+        except Exception as exc:
+            raise ControllerFault(f"{type(exc).__name__}: {str(exc).splitlines()[0]}") from exc
+        if callback is not None:
+            callback()
